@@ -30,7 +30,17 @@ macro_rules! p19_int {
                     5 => p.wrapping_sub(1) as $T,
                     6 => p.wrapping_add(1) as $T,
                     7 => <$T>::MAX - (d.int(0, 3) as $T),
-                    8 => <$T>::MIN + (d.int(0, 3) as $T),
+                    8 => if $bits == 64 {
+                        // next to a rounding midpoint of the float targets: m*2^sh + 2^(sh-1) + j.
+                        // f32 keeps 24 bits, f64 53: a conversion that rounds twice is off by one ulp here
+                        let (mant_bits, sh) = if d.bool() { (24u32, d.int(30, 39) as u32) } else { (53u32, d.int(2, 10) as u32) };
+                        let m: u64 = (1u64 << (mant_bits - 1)) | (d.bits64() >> (65 - mant_bits));
+                        let j = d.pick(&[-2i64, -1, 0, 1, 2, 3]);
+                        let v = (m << sh).wrapping_add(1u64 << (sh - 1)).wrapping_add(j as u64);
+                        (v >> 1) as $U as $T
+                    } else {
+                        <$T>::MIN + (d.int(0, 3) as $T)
+                    },
                     _ => (d.bits64() as $U) as $T,
                 };
                 if $signed && d.bool() { v.wrapping_neg() } else { v }
@@ -160,11 +170,11 @@ pub fn property() -> Property {
             row!(@t $S, $sn, u8, "u8"); row!(@t $S, $sn, u16, "u16"); row!(@t $S, $sn, u32, "u32"); row!(@t $S, $sn, u64, "u64"); row!(@t $S, $sn, usize, "usize");
             row!(@t $S, $sn, i8, "i8"); row!(@t $S, $sn, i16, "i16"); row!(@t $S, $sn, i32, "i32"); row!(@t $S, $sn, i64, "i64"); row!(@t $S, $sn, isize, "isize");
             row!(@t $S, $sn, f32, "f32"); row!(@t $S, $sn, f64, "f64");
-            s.push(SubCheck { name: concat!("quaternion-", $sn, "-to-f32"), scalar: $sn, quick: 300, thorough: 20_000, len: 24, f: quat_pair::<$S, f32>, required: &[], rule: R, exhaustive: false });
-            s.push(SubCheck { name: concat!("quaternion-", $sn, "-to-f64"), scalar: $sn, quick: 300, thorough: 20_000, len: 24, f: quat_pair::<$S, f64>, required: &[], rule: R, exhaustive: false });
+            s.push(SubCheck { name: concat!("quaternion-", $sn, "-to-f32"), scalar: $sn, quick: 300, thorough: 20_000, len: 48, f: quat_pair::<$S, f32>, required: &[], rule: R, exhaustive: false });
+            s.push(SubCheck { name: concat!("quaternion-", $sn, "-to-f64"), scalar: $sn, quick: 300, thorough: 20_000, len: 48, f: quat_pair::<$S, f64>, required: &[], rule: R, exhaustive: false });
         };
         (@t $S:ty, $sn:expr, $T:ty, $tn:expr) => {
-            s.push(SubCheck { name: concat!("cast-", $sn, "-to-", $tn), scalar: $sn, quick: 300, thorough: 20_000, len: 200, f: cast_pair::<$S, $T>, required: &[], rule: R, exhaustive: false });
+            s.push(SubCheck { name: concat!("cast-", $sn, "-to-", $tn), scalar: $sn, quick: 300, thorough: 20_000, len: 420, f: cast_pair::<$S, $T>, required: &[], rule: R, exhaustive: false });
         };
     }
     row!(u8, "u8");
